@@ -862,7 +862,12 @@ pub fn replay_blocking(pool: Arc<Pool>, verify: bool, steps: Vec<Step>, seed: u6
     let mode = pool.mode.clone();
     let sh = Arc::new(Mutex::new(Shared::new(&mode, pool.clone(), true, steps.clone(), seed, nocfg())));
     let mut framed = Framed::new(Box::new(BlockingTransport(sh.clone())), Codec::new(crate::frames::mode_of(&mode)));
-    framed.verify_version(verify);
+    // "disabled" is also what a connection is when nobody ever touched the switch: half of the gate-off runs leave it alone
+    if verify || seed % 2 == 0 {
+        if verify || seed % 2 == 0 {
+            framed.verify_version(verify);
+        }
+    }
     loop {
         let st = {
             let mut s = sh.lock().unwrap();
@@ -1201,7 +1206,11 @@ pub fn trace_blocking(pool: Arc<Pool>, tc: &TraceCfg) -> Vec<Value> {
     let rcfg = random_cfg(&mut rng, tc);
     let sh = Arc::new(Mutex::new(Shared::new(&tc.mode, pool.clone(), false, vec![], tc.seed, rcfg)));
     let mut framed = Framed::new(Box::new(BlockingTransport(sh.clone())), Codec::new(crate::frames::mode_of(&tc.mode)));
-    framed.verify_version(tc.verify);
+    if tc.verify || tc.seed % 2 == 0 {
+        if tc.verify || tc.seed % 2 == 0 {
+            framed.verify_version(tc.verify);
+        }
+    }
     sh.lock().unwrap().ev(json!({"ev": "Reset", "transport": "stream", "flavor": "blocking", "verify": tc.verify, "mode": tc.mode}));
     let mut nwrites = 0usize;
     for _round in 0..(tc.frames * 6 + 50 + tc.fixed.as_ref().map(|q| q.len() * 3).unwrap_or(0)) {
